@@ -230,3 +230,51 @@ type tally map[string]int
 func (t tally) inc(k string) { t[k]++ }
 
 func (t tally) summary() map[string]int { return map[string]int(t) }
+
+// withTwinRoot returns a variant of the case in which the root package exists twice: the second copy lives in the
+// sub-directory "twin" and imports the very same other packages (so both roots share the provider-set objects those
+// packages declare) and both are processed by one wire invocation. Whatever the original judge demands of the root
+// still holds; in addition the twin must get the same verdict, the same diagnostics and the same generated file:
+// nothing may leak from one package of an invocation to the next.
+func withTwinRoot(cs *h.Case) *h.Case {
+	files := map[string]string{}
+	for p, c := range cs.Files {
+		files[p] = c
+		if !strings.Contains(p, "/") && strings.HasSuffix(p, ".go") {
+			files["twin/"+p] = c
+		}
+	}
+	nc := *cs
+	nc.Files = files
+	nc.ID = cs.ID + "/twin-root"
+	nc.ExtraBuild = append(append([]string{}, cs.ExtraBuild...), "twin")
+	orig := cs.Judge
+	nc.Judge = func(r *h.Result) []h.Violation {
+		vs := orig(r)
+		if r.Crashed || r.TimedOut || r.LoadFailed {
+			return vs
+		}
+		a, b := r.Pkgs[""], r.Pkgs["twin"]
+		if a == nil {
+			a = &h.PkgResult{}
+		}
+		if b == nil {
+			b = &h.PkgResult{}
+		}
+		norm := func(ds []string) string {
+			s := strings.Join(ds, "\n")
+			s = strings.ReplaceAll(s, "{{ROOT}}/twin", "{{ROOT}}")
+			return strings.ReplaceAll(s, "twin/", "")
+		}
+		switch {
+		case a.Failed != b.Failed || a.Wrote != b.Wrote:
+			vs = append(vs, h.Violation{Symptom: "twin-verdict-differs", Detail: fmt.Sprintf("two identical packages processed by one invocation get different verdicts: first failed=%v wrote=%v, second failed=%v wrote=%v\n--- first ---\n%s\n--- second ---\n%s", a.Failed, a.Wrote, b.Failed, b.Wrote, clip(norm(a.Diags), 800), clip(norm(b.Diags), 800))})
+		case norm(a.Diags) != norm(b.Diags):
+			vs = append(vs, h.Violation{Symptom: "twin-diagnostics-differ", Detail: fmt.Sprintf("two identical packages processed by one invocation get different diagnostics:\n--- first ---\n%s\n--- second ---\n%s", clip(norm(a.Diags), 800), clip(norm(b.Diags), 800))})
+		case r.GenSrc[""] != r.GenSrc["twin"]:
+			vs = append(vs, h.Violation{Symptom: "twin-output-differs", Detail: "two identical packages processed by one invocation get different wire_gen.go:\n--- first ---\n" + clip(r.GenSrc[""], 1500) + "\n--- second ---\n" + clip(r.GenSrc["twin"], 1500)})
+		}
+		return vs
+	}
+	return &nc
+}
